@@ -724,4 +724,182 @@ theorem dedup_of_nodup {l : List Nat} (h : l.Nodup) : dedup l = l := by
     rw [List.nodup_cons] at h
     simp [dedup, h.1, ih h.2]
 
+/-! ## the bridger index points at the oracle that names this bridger -/
+
+theorem get_del_self {α : Type} (m : Map α) (k : Nat) : (m.del k).get k = none := by
+  induction m with
+  | nil => simp [Map.del, Map.get]
+  | cons p r ih =>
+    obtain ⟨k', v'⟩ := p
+    by_cases h : k' = k
+    · have : (Map.del ((k', v') :: r) k) = Map.del r k := by simp [Map.del, h]
+      rw [this]; exact ih
+    · have : (Map.del ((k', v') :: r) k) = (k', v') :: Map.del r k := by simp [Map.del, List.filter_cons, h]
+      rw [this]; simp [Map.get, h, ih]
+
+theorem get_del_ne {α : Type} (m : Map α) (k k2 : Nat) (h : k ≠ k2) : (m.del k).get k2 = m.get k2 := by
+  induction m with
+  | nil => simp [Map.del, Map.get]
+  | cons p r ih =>
+    obtain ⟨k', v'⟩ := p
+    by_cases h1 : k' = k
+    · subst h1
+      have : (Map.del ((k', v') :: r) k') = Map.del r k' := by simp [Map.del, List.filter_cons]
+      rw [this, ih]; simp [Map.get, h]
+    · have : (Map.del ((k', v') :: r) k) = (k', v') :: Map.del r k := by simp [Map.del, List.filter_cons, h1]
+      rw [this]
+      by_cases h2 : k' = k2
+      · simp [Map.get, h2]
+      · simp [Map.get, h2, ih]
+
+/-- `m'` keeps every oracle of `m`, with the same bridger -/
+def BP (m m' : Map Oracle) : Prop := ∀ a orc, m.get a = some orc → ∃ orc', m'.get a = some orc' ∧ orc'.bridger = orc.bridger
+
+theorem BP_refl (m : Map Oracle) : BP m m := fun _ orc h => ⟨orc, h, rfl⟩
+
+theorem BP_trans {m1 m2 m3 : Map Oracle} (h1 : BP m1 m2) (h2 : BP m2 m3) : BP m1 m3 := by
+  intro a orc h
+  obtain ⟨o2, hg2, hb2⟩ := h1 a orc h
+  obtain ⟨o3, hg3, hb3⟩ := h2 a o2 hg2
+  exact ⟨o3, hg3, by rw [hb3, hb2]⟩
+
+theorem BP_set (m : Map Oracle) (o : Nat) (orc new : Oracle) (hg : m.get o = some orc) (hb : new.bridger = orc.bridger) :
+    BP m (m.set o new) := by
+  intro a x hx
+  by_cases h : o = a
+  · subst h
+    rw [hg] at hx; cases hx
+    exact ⟨new, get_set_self _ _ _, hb⟩
+  · exact ⟨x, by rw [get_set_ne _ _ _ _ h]; exact hx, rfl⟩
+
+theorem BP_map (m : Map Oracle) (f : Nat × Oracle → Nat × Oracle) (hk : ∀ p, (f p).1 = p.1)
+    (hb : ∀ p, (f p).2.bridger = p.2.bridger) : BP m (m.map f) := by
+  intro a orc h
+  induction m with
+  | nil => simp [Map.get] at h
+  | cons q r ih =>
+    obtain ⟨k', v'⟩ := q
+    have e : f (k', v') = (k', (f (k', v')).2) := by
+      have := hk (k', v'); exact Prod.ext this rfl
+    by_cases h1 : k' = a
+    · simp [Map.get, h1] at h
+      subst h
+      refine ⟨(f (k', v')).2, ?_, hb _⟩
+      rw [List.map_cons, e]; simp [Map.get, h1]
+    · simp [Map.get, h1] at h
+      obtain ⟨o', hg', hb'⟩ := ih h
+      refine ⟨o', ?_, hb'⟩
+      rw [List.map_cons, e]; simp [Map.get, h1]; exact hg'
+
+theorem BP_slashOne (m : Map Oracle) (o : Nat) : BP m (slashOne m o) := by
+  unfold slashOne
+  split
+  · rename_i orc hg
+    split
+    · exact BP_set m o orc _ hg rfl
+    · exact BP_refl _
+  · exact BP_refl _
+
+theorem BP_foldl_slashOne (l : List Nat) (m : Map Oracle) : BP m (l.foldl slashOne m) := by
+  induction l generalizing m with
+  | nil => exact BP_refl _
+  | cons o r ih => exact BP_trans (BP_slashOne m o) (ih _)
+
+def BInv (s : State) : Prop :=
+  ∀ b a, s.byBridger.get b = some a → ∃ orc, s.oracles.get a = some orc ∧ orc.bridger = b
+
+theorem binv_of_BP {s s' : State} (hb : s'.byBridger = s.byBridger) (hp : BP s.oracles s'.oracles) (h : BInv s) : BInv s' := by
+  intro b a hg
+  rw [hb] at hg
+  obtain ⟨orc, ho, hbr⟩ := h b a hg
+  obtain ⟨orc', ho', hbr'⟩ := hp a orc ho
+  exact ⟨orc', ho', by rw [hbr', hbr]⟩
+
+theorem binv_step (s : State) (op : Op) (hB : BInv s) : BInv (step s op).1 := by
+  cases op with
+  | claim w i n h k e =>
+    have := claim_registry s w i n h k
+    simp only [] at this
+    simp only [step]
+    exact binv_of_BP this.2.2.1 (by rw [this.1]; exact BP_refl _) hB
+  | bond o b e a d =>
+    simp only [step]; unfold bondStep
+    repeat' split
+    all_goals first | exact hB | skip
+    all_goals
+      rename_i hno _ _ _ _ _ _
+      have hno' : s.oracles.get o = none := by simpa using hno
+      intro b' a' hg
+      simp only [refresh] at hg ⊢
+      by_cases hb : b = b'
+      · subst hb
+        rw [get_set_self] at hg; cases hg
+        exact ⟨_, get_set_self _ _ _, rfl⟩
+      · rw [get_set_ne _ _ _ _ hb] at hg
+        obtain ⟨orc, ho, hbr⟩ := hB b' a' hg
+        have hne : o ≠ a' := by intro hc; subst hc; rw [hno'] at ho; cases ho
+        exact ⟨orc, by rw [get_set_ne _ _ _ _ hne]; exact ho, hbr⟩
+  | addDelegate o a d =>
+    simp only [step]; unfold addDelegateStep addDelegateTo
+    repeat' split
+    all_goals first | exact hB | skip
+    all_goals
+      rename_i orc hg _ _ _ _ _
+      exact binv_of_BP (s := s) rfl (BP_set s.oracles o orc _ hg rfl) hB
+  | editBridger o b =>
+    simp only [step]; unfold editBridgerStep
+    repeat' split
+    all_goals first | exact hB | skip
+    rename_i orc hgo _ hneq _
+    intro b' a' hg
+    simp only [] at hg ⊢
+    by_cases hb : b = b'
+    · subst hb
+      rw [get_set_self] at hg; cases hg
+      exact ⟨_, get_set_self _ _ _, rfl⟩
+    · rw [get_set_ne _ _ _ _ hb] at hg
+      have hold : orc.bridger ≠ b' := by
+        intro hc; rw [hc, get_del_self] at hg; cases hg
+      rw [get_del_ne _ _ _ hold] at hg
+      obtain ⟨orc', ho, hbr⟩ := hB b' a' hg
+      have hne : o ≠ a' := by
+        intro hc; subst hc; rw [hgo] at ho; cases ho; exact hold hbr
+      exact ⟨orc', by rw [get_set_ne _ _ _ _ hne]; exact ho, hbr⟩
+  | unbond o u bal d =>
+    simp only [step]; unfold unbondStep
+    repeat' split
+    all_goals first | exact hB | skip
+    all_goals
+      rename_i orc hgo _ _ _ _ _
+      intro b' a' hg
+      simp only [] at hg ⊢
+      have hold : orc.bridger ≠ b' := by
+        intro hc; rw [hc, get_del_self] at hg; cases hg
+      rw [get_del_ne _ _ _ hold] at hg
+      obtain ⟨orc', ho, hbr⟩ := hB b' a' hg
+      have hne : o ≠ a' := by
+        intro hc; subst hc; rw [hgo] at ho; cases ho; exact hold hbr
+      exact ⟨orc', by rw [get_del_ne _ _ _ hne]; exact ho, hbr⟩
+  | gov l d =>
+    simp only [step]; unfold govStep
+    repeat' split
+    all_goals first | exact hB | skip
+    all_goals
+      refine binv_of_BP (s := s) rfl (BP_map s.oracles _ ?_ ?_) hB
+      · intro p; split <;> rfl
+      · intro p; split <;> rfl
+  | endBlock l r =>
+    simp only [step]; unfold endBlockStep
+    split
+    all_goals exact binv_of_BP (s := s) rfl (BP_foldl_slashOne l s.oracles) hB
+  | exec n f =>
+    simp only [step]; unfold execStep
+    repeat' split
+    all_goals exact hB
+
+theorem binv_run (s : State) (ops : List Op) (hB : BInv s) : BInv (run s ops) := by
+  induction ops generalizing s with
+  | nil => exact hB
+  | cons op r ih => exact ih _ (binv_step s op hB)
+
 end FxVerif.Proofs.C01
